@@ -1294,6 +1294,24 @@ def gen_per(ctx, rng):
                 startup=gen_startup(rng, 0.4, 0.08))
 
 
+def gen_per_single_point(ctx, rng):
+    """fixed share, not left to the draw: a periodic condition whose NON-static non-periodic sampler creates exactly ONE
+    point, with a callable data function of that point which the residual reads on both sides"""
+    while True:
+        p = gen_per(ctx, rng)
+        call = [d for d in p["data"] if d.get("form") not in ("table", "number", "const")]
+        if p["bspace"] and call and not any(d.get("form") == "table" for d in p["data"]) and \
+                any(set(d["params"]) & {v for v, _ in p["bspace"]} for d in call):
+            break
+    p.update(n=1, static=False, calls=3, sets=[gen_rows(rng, 1, dim_of(p["bspace"])) for _ in range(6)])
+    d = next(d for d in call if set(d["params"]) & {v for v, _ in p["bspace"]})
+    for side in ("_left", "_right"):
+        if d["name"] + side not in p["resid"]["params"]:
+            p["resid"]["params"].insert(0, d["name"] + side)
+            p["resid"]["body"][0] = ["+", p["resid"]["body"][0], ["*", ["c", "2"], ["v", d["name"] + side, 0]]]
+    return p
+
+
 def run_per(case):
     C = classes()
     tp, torch = C["tp"], C["torch"]
@@ -1542,6 +1560,12 @@ def gen_don(ctx, rng):
             resid["body"][0] = ["+", resid["body"][0], ["v", "f", 0]]
         if out_space[0][0] not in resid["params"]:
             resid["params"].insert(0, out_space[0][0])
+        if dim_of(fout) == 1 and rng.random() < 0.3:
+            # fixed share: the function-set output is an argument of the residual WITH A DEFAULT — it is supplied all the same
+            use_f = True
+            if "f" not in resid["params"]:
+                resid["params"].insert(0, "f")
+            make_defaulted(rng, resid, "f")
         return dict(static=(static if first else rng.random() < 0.6), n=n_, data=data, param=param, resid=resid, use_f=use_f,
                     xsets=[gen_rows(rng, n_, dim_of(xspace)) for _ in range(calls + 3)])
     # 1-3 conditions share ONE DeepONet and ONE function set (equation + boundary/initial conditions); every
@@ -1567,8 +1591,26 @@ def gen_don(ctx, rng):
         order = list(range(nconds))
         rng.shuffle(order)
         steps += [[k, j] for j in order]
+    # which function sets the conditions use: ONE shared set (usual), TWO different sets that take their parameters from one
+    # shared STATIC parameter sampler (their param_batch is one and the same object), or two FunctionSetCollections of the
+    # same member sets in different order (param_batch stays None) — fixed shares, not left to the draw
+    fsmode = "one"
+    fn2 = None
+    if nconds >= 2:
+        fsmode = rng.choice(["one", "one", "two_static", "collection"])
+    if fsmode != "one":
+        for j_, sb in enumerate(subs):
+            sb["fs"] = j_ % 2
+        if fsmode == "two_static":
+            fn2 = gen_fn(rng, "fset2", pspace + [[sv, 1]], dim_of(fout), deg=2, allow_default=False)
+            for nm in ("k", sv):
+                if nm not in fn2["params"]:
+                    fn2["params"].append(nm)
+            fn2["body"][0] = ["+", fn2["body"][0], ["*", ["c", "3"], ["v", "k", 0]]]
+        # every round evaluates the first condition AGAIN after the others (same iteration key)
+        steps = [st_ for k_ in range(calls) for st_ in ([s_ for s_ in steps if s_[0] == k_] + [[k_, steps[0][1]]])]
     dsub = None
-    if rng.random() < 0.5:
+    if fsmode == "one" and rng.random() < 0.5:
         # a DeepONetDataCondition on the SAME DeepONet: it feeds its own branch data to the shared branch net; it is
         # evaluated between the physics conditions (steps [k, "D"])
         nT = rng.choice([1, 2, 3])
@@ -1584,7 +1626,8 @@ def gen_don(ctx, rng):
         steps = st2
     return dict(kind="don", sv=sv, xspace=xspace, trunk_in=trunk_in, pspace=pspace, fout=fout, fn=fn, out=out_space,
                 nk=nk, zs=zs, W=W, feats=feats, F=F_, calls=calls, psets=psets, subs=subs, steps=steps, keys=keys,
-                mode=mode, dsub=dsub, startup=gen_startup(rng, 0.3, 0.0))
+                mode=mode, dsub=dsub, fsmode=fsmode, fn2=fn2, psets2=[gen_rows(rng, F_, dim_of(pspace)) for _ in range(2 * calls + 2)],
+                startup=gen_startup(rng, 0.3, 0.0))
 
 
 def don_batches(case, steps=None):
@@ -1602,11 +1645,15 @@ def don_batches(case, steps=None):
     return out, draws
 
 
-def don_net(case):
+def don_fn(case, sub):
+    return case["fn2"] if (case.get("fsmode") == "two_static" and sub.get("fs") == 1) else case["fn"]
+
+
+def don_net(case, fn=None):
     """the DeepONet (trunk features · linear branch of the discretised input function) as ONE polynomial
     program of the function parameters `k` and the trunk variables"""
     sv, nk = case["sv"], case["nk"]
-    fbody = [pe_from_json(b) for b in case["fn"]["body"]]
+    fbody = [pe_from_json(b) for b in (fn or case["fn"])["body"]]
     dout = dim_of(case["fout"])
     du = dim_of(case["out"])
     feats = [pe_from_json(b) for b in case["feats"]]
@@ -1634,7 +1681,32 @@ def run_don(case, only=None):
     custom_fn = build_fn(C, case["fn"], [])
     psampler = C["ListSampler"](case["pspace"], [prow(s) for s in case["psets"]])
     rec_p = Recorder(psampler)
-    fset = tp.domains.CustomFunctionSet(fspace, psampler, custom_fn)          # shared by all conditions
+    fsmode = case.get("fsmode", "one")
+    if fsmode == "two_static":
+        sps = psampler.make_static()                                          # ONE static parameter sampler object
+        rec_p = Recorder(sps)
+        fsets = [tp.domains.CustomFunctionSet(fspace, sps, custom_fn),
+                 tp.domains.CustomFunctionSet(fspace, sps, build_fn(C, case["fn2"], []))]
+    elif fsmode == "collection":
+        ps2 = C["ListSampler"](case["pspace"], [prow(s) for s in case["psets2"]])
+        # static member samplers: the member sets are shared by both collections, so what they hold must not depend on
+        # who asked last
+        fa = tp.domains.CustomFunctionSet(fspace, psampler.make_static(), custom_fn)
+        fb = tp.domains.CustomFunctionSet(fspace, ps2.make_static(), custom_fn)
+        fsets = [fa + fb, fb + fa]          # same members, other order; param_batch is None
+    else:
+        fsets = [tp.domains.CustomFunctionSet(fspace, psampler, custom_fn)]    # shared by all conditions
+    fset = fsets[0]
+
+    def current_params(fs):
+        members = getattr(fs, "collection", None)
+        if members is None:
+            pb = getattr(fs, "param_batch", None)
+            return cc.points_record(pb) if pb is not None else (rec_p.calls[-1] if rec_p.calls else None)
+        recs = [cc.points_record(m.param_batch) for m in members if getattr(m, "param_batch", None) is not None]
+        if len(recs) != len(members):
+            return None
+        return dict(space=recs[0]["space"], rows=[r for rc in recs for r in rc["rows"]], shape=None)
     disc = C["ListSampler"]([[sv, 1]], [prow(case["zs"])]).make_static()
     trunk = C["PolyTrunk"](case["trunk_in"], [pe_from_json(b) for b in case["feats"]])
     branch = C["LinBranch"](fspace, disc, [[F(v) for v in r] for r in case["W"]])
@@ -1657,7 +1729,7 @@ def run_don(case, only=None):
             pn, pv = sub["param"][0]
             kw["parameter"] = tp.models.Parameter([float(F(v)) for v in pv], mk_space([[pn, len(pv)]]))
         try:
-            cond = tp.conditions.PIDeepONetCondition(net, fset, sampler, resid, **kw)
+            cond = tp.conditions.PIDeepONetCondition(net, fsets[sub.get("fs", 0) % len(fsets)], sampler, resid, **kw)
         except Exception as e:  # noqa
             out["errors"].append(("construct", classify_exc(e)))
             return out
@@ -1699,12 +1771,7 @@ def run_don(case, only=None):
             st["error"] = classify_exc(e)
             out["errors"].append((f"iteration {k} condition {j}", st["error"]))
         st["points"] = rec.calls[b:]
-        pb = getattr(fset, "param_batch", None)
-        if pb is None and rec_p.calls:
-            pb_rec = rec_p.calls[-1]             # the batch is not visible on the set: the last batch its sampler drew
-            st["pp"] = pb_rec
-        elif pb is not None:
-            st["pp"] = cc.points_record(pb)          # the input functions currently in the branch net
+        st["pp"] = current_params(fsets[case["subs"][j].get("fs", 0) % len(fsets)])      # the input functions in force for THIS condition          # the input functions currently in the branch net
         if len(obs.resid_args) > n_obs:
             st["args"], st["out"] = obs.resid_args[-1], obs.resid_out[-1]
         st["batch"] = len(rec_p.calls)           # number of function batches drawn so far
@@ -1717,19 +1784,19 @@ def run_don(case, only=None):
 def lines_don(case, res):
     if res["errors"] and isinstance(res["errors"][0][0], str):   # construction / training start failed: nothing was evaluated
         return []
-    net = don_net(case)
     lines = []
     for st in res["steps"]:
         if st["j"] == "D":
             lines.append(None)
             continue
         sub = case["subs"][st["j"]]
+        net = don_net(case, don_fn(case, sub))
         p, pp = pick_points(st["points"], None, st["args"]), st["pp"]
         if p is None or pp is None:
             lines.append(None)
             continue
         pre = pre_tok(sub["static"], None, p["rows"])
-        fso = "1 " + tok_space(case["fout"]) + " " + fn_tok(case["fn"]) if sub["use_f"] else "0"
+        fso = "1 " + tok_space(case["fout"]) + " " + fn_tok(don_fn(case, sub)) if sub["use_f"] else "0"
         lines.append(" ".join(["don", tok_space(pp["space"]), tok_space(p["space"]), tok_table(pp["rows"]), tok_table(p["rows"]),
                                net_tok(net), fso, resid_ufun_tok(sub),
                                lst(sub["data"], data_tok), pre,
@@ -1756,8 +1823,13 @@ def judge_don(rep, case, res, replies):
             rep.fail(f"PIDeepONetCondition raised at {where}: {what}", case)
         return
     rep.count("don:calls=" + case.get("mode", "train"))
+    rep.count("don:function-sets=" + case.get("fsmode", "one"))
     batch_of, want_draws = don_batches(case, res.get("ran_steps"))
-    if res["param_draws"] != want_draws:
+    if case.get("fsmode", "one") != "one":
+        # several function sets: the draw rule applies per set; here the by-name arguments (u, f for the functions in
+        # force for THIS condition) and alone-vs-company decide
+        batch_of = list(range(len(res["steps"])))
+    elif res["param_draws"] != want_draws:
         rep.fail(f"the shared function set drew new functions {res['param_draws']} times; called with the iteration keys "
                  f"{[(case.get('keys') or list(range(case['calls'])))[k] for k, _ in res.get('ran_steps', case['steps'])]} it must draw "
                  f"{want_draws} times (once per change of the key)", case)
@@ -1769,8 +1841,6 @@ def judge_don(rep, case, res, replies):
             if prev != st["loss"]:
                 rep.fail(f"PIDeepONetCondition {st['j']} (static input sampler) returned {prev!r} and then {st['loss']!r} although no new "
                          f"input functions were due in between (iteration keys {case.get('keys')})", case)
-    net = don_net(case)
-    body = [pe_from_json(b) for b in net["body"]]
     if case.get("dsub"):
         rep.count("don:with-DeepONetDataCondition-on-the-same-DeepONet")
     first_of_iter = {}
@@ -1796,6 +1866,7 @@ def judge_don(rep, case, res, replies):
                          f"the stated norm of model minus data is {docv!r}", case, detail=dict(step=si))
             continue
         sub = case["subs"][st["j"]]
+        body = [pe_from_json(b) for b in don_net(case, don_fn(case, sub))["body"]]
         k = st["k"]
         first_of_iter.setdefault(k, st["j"])
         tag = f"iteration {k}, condition {st['j']}" + ("" if first_of_iter[k] == st["j"] else " (not the first of its iteration)")
@@ -1831,7 +1902,7 @@ def judge_don(rep, case, res, replies):
         for d in sub["data"]:
             exp[d["name"]] = data_expected(d, envs)
         if sub["use_f"]:
-            exp["f"] = [eval_fn_spec(case["fn"], e) for e in envs]
+            exp["f"] = [eval_fn_spec(don_fn(case, sub), e) for e in envs]
         for nm, vs in sub["param"]:
             exp[nm] = [[F(v) for v in vs] for _ in envs]
         for nm, vs in sub["resid"]["defaults"]:
@@ -1876,8 +1947,8 @@ def gen_cases(ctx):
         cases.append(gen_sm_tp(ctx, rng))
     for _ in range(ctx.scale(80, 900)):
         cases.append(gen_data(ctx, rng))
-    for _ in range(ctx.scale(80, 900)):
-        cases.append(gen_per(ctx, rng))
+    for i_ in range(ctx.scale(80, 900)):
+        cases.append(gen_per_single_point(ctx, rng) if i_ % 5 == 0 else gen_per(ctx, rng))
     for _ in range(ctx.scale(60, 700)):
         cases.append(gen_don(ctx, rng))
     for _ in range(ctx.scale(70, 800)):
